@@ -680,9 +680,20 @@ def check_char_class_tests(prog, run, funcs, scope, floor):
                         vals.append(ast.Subscript(value=par.iter, slice=ast.Constant(value=0), ctx=ast.Load()))   # an element of the iterable
                     else:
                         vals.append(None)
-                def one_char(v):
+                def one_char(v, depth=0, owner=f):
                     if isinstance(v, ast.Subscript) and not isinstance(v.slice, ast.Slice):
                         return True
+                    if isinstance(v, ast.Call) and depth < 2:
+                        # a helper every return of which hands back one character (or None): `char = self._peek_char()`
+                        cal = [c for c in prog.resolve_call(owner, v) if c.name != "__init__" and not isinstance(c.node, ast.Lambda)]
+                        if cal:
+                            def rets(c):
+                                return [x.value for x in own_walk(c.node) if isinstance(x, ast.Return)]
+                            return all(rets(c) and all(rv is None or one_char(rv, depth + 1, c) for rv in rets(c)) for c in cal)
+                    if isinstance(v, ast.Name) and depth < 3:
+                        ds = [getattr(x, "_parent", None) for x in ast.walk(owner.node) if isinstance(x, ast.Name) and x.id == v.id and isinstance(x.ctx, ast.Store)]
+                        if ds and all(isinstance(d_, ast.Assign) and len(d_.targets) == 1 and d_.value is not None and one_char(d_.value, depth + 1, owner) for d_ in ds):
+                            return True
                     return isinstance(v, ast.Constant) and (v.value is None or (isinstance(v.value, str) and len(v.value) <= 1))
                 ok = bool(vals) and all(one_char(v) for v in vals)
             if not ok:
